@@ -1,7 +1,7 @@
 --------------------------------------- MODULE Trace_Pipeline ---------------------------------------
 (* Trace validation for C01.  One event per execution of the compiler (library call in an isolated     *)
 (* worker, or the binary on real files):                                                             *)
-(*  [ev |-> "run", mode, fam, bytes, accepted, errors, warnings, elapsed_ms, expect,                   *)
+(*  [ev |-> "run", mode, fam, bytes, accepted, errors, warnings, elapsed_ms, cpu_ms, expect,           *)
 (*   exit, signal, panicked, timed_out, usage]                                                        *)
 (* An event is accepted iff it is the end of a behaviour of Pipeline with no deviation: a verdict      *)
 (* whose exit status is Pipeline!ExitStatus for (errors > 0, usage), reached within the time bound.    *)
@@ -13,19 +13,22 @@ VARIABLE l
 \* the verdict of the pipeline model for a run that recorded errors / was rejected by the option grammar
 P(errs, us, mode) == INSTANCE Pipeline WITH pc <- 14, errors <- errs, usage <- us, outcome <- "verdict", Mode <- mode, Dev <- {}
 
-\* 20 s for up to 8 KiB of input, growing linearly with the size above that
+\* 20 s for up to 8 KiB of input, growing linearly with the size above that.  The bound is applied to the CPU time of
+\* the run (cpu_ms): it never exceeds the wall-clock time of the single-threaded compiler, so a run over the bound in CPU
+\* time is over it in wall-clock time too, and a busy machine cannot push a fast run over it.  (A run that makes no
+\* progress without computing is caught by the supervisor's wall-clock limit: timed_out / no event.)
 Bound(bytes) == 20000 * (1 + (bytes \div 8192))
 
 LibOk(e) ==
   /\ e.accepted = (e.errors = 0)                                       \* the verdict is carried by error diagnostics
-  /\ e.elapsed_ms <= Bound(e.bytes)
+  /\ e.cpu_ms <= Bound(e.bytes)
   /\ (e.expect = "error" => e.errors > 0)                              \* malformed input is reported through error diagnostics
   /\ (e.expect = "ok" => e.errors = 0)
 BinOk(e) ==
   /\ e.signal = 0 /\ ~e.panicked /\ ~e.timed_out
   /\ e.exit \in {0, 1, 2}
   /\ e.exit = P(e.errors > 0, e.usage, "bin")!ExitStatus               \* 2 <=> usage error; otherwise 1 <=> errors were reported
-  /\ e.elapsed_ms <= Bound(e.bytes)
+  /\ e.cpu_ms <= Bound(e.bytes)
   /\ (e.expect = "error" => e.exit = 1)
   /\ (e.expect = "ok" => e.exit = 0)
   /\ (e.expect = "usage" => e.exit = 2)
